@@ -25,6 +25,15 @@ def isort : List Nat → List Nat
   | [] => []
   | a :: l => insertSorted a (isort l)
 
+/-- `sorted(xs, key=key)`: Python's sort is stable — elements whose keys tie keep the order they arrive in -/
+def insertByKey (key : Nat → Nat) (a : Nat) : List Nat → List Nat
+  | [] => [a]
+  | b :: l => if key a ≤ key b then a :: b :: l else b :: insertByKey key a l
+
+def isortBy (key : Nat → Nat) : List Nat → List Nat
+  | [] => []
+  | a :: l => insertByKey key a (isortBy key l)
+
 /-- key order of `{k: … for k in xs}`: first occurrences, in order -/
 def dedupFirst : List Nat → List Nat
   | [] => []
